@@ -1011,12 +1011,14 @@ static bool g_expect_unsolvable = false; // set by generators that build problem
         const bool one_delay = o.has("one_delay_per_tick");
         const bool last_only = o.has("adapt_only_last_pending");
         const bool counts_unified = o.has("adapt_counts_unified_atoms");
-        g_on_solver = [&t, upt, one_delay, last_only, counts_unified](ratio::solver &s) {
+        const bool any_delay = o.get("anydelay", "") == "1";
+        g_on_solver = [&t, upt, one_delay, last_only, counts_unified, any_delay](ratio::solver &s) {
           g_executor.reset(new ratio::executor(s, upt));
           g_erec.reset(new ExecRec(*g_executor, s, t, upt));
           g_erec->one_delay_per_tick = one_delay;
           g_erec->adapt_only_last_pending = last_only;
           g_erec->adapt_counts_unified = counts_unified;
+          g_erec->any_delay = any_delay;
         };
         g_on_solver_gone = []() { g_erec.reset(); g_executor.reset(); };
         g_after_solve = [&](ratio::solver &s) {
